@@ -190,6 +190,20 @@ def classify_report(stderr, origin_dirs):
             elif frames:
                 break
         lab = label(parse_frames(frames))
+        if lab is None and 'freed by thread' in stderr:
+            # the access itself happened in harness code that walks a data structure of the code under test: if that
+            # memory was freed by the code under test, the structure links freed memory - attribute it to the freeing site
+            fr, on = [], False
+            for ln in lines:
+                if 'freed by thread' in ln:
+                    on = True
+                elif on and re.match(r'^\s+#\d+ ', ln):
+                    fr.append(ln)
+                elif on and fr:
+                    break
+            lab2 = label(parse_frames(fr[1:]))      # frame 0 is free() itself
+            if lab2 is not None:
+                return 'asan|%s|freed-by:%s' % (kind, lab2), True, stderr
         return 'asan|%s|%s' % (kind, lab or 'harness'), lab is not None, stderr
     m = re.search(r'^(\S+?):(\d+):\d+: runtime error: (.*)$', stderr, re.M)
     if m:
